@@ -1,4 +1,5 @@
 import Adlt.Args.Trunc
+import Adlt.Args.Corrupt
 import Adlt.Args.TextProofs
 /-! # C18 — verbose payloads: encode/decode agreement and canonical text
 
@@ -24,11 +25,30 @@ theorem C18_text (op : Opaque) (be : Bool) (vs : List Val) (hw : ∀ v ∈ vs, v
     render op be (argIter be (encode be vs)) = canon op be vs := by
   rw [argIter_encode be vs hw]; exact render_decoded op be vs hw
 
+/-- malformed lists, for **every** byte string (not only corruptions of an encoded list): each argument the decoder
+    yields has a supported type info - no variable-info, fixed-point, array, trace-info or structure modifier (they
+    change the layout of the argument, which the decoder does not know) and no reserved length code; the decoder stops
+    in front of such an argument -/
+theorem C18_decoded_supported (be : Bool) (p : Bytes) : ∀ a ∈ argIter be p, unsupportedTi a.ti = false :=
+  argIter_supported be p
+
+/-- a corrupted field: whatever follows the encoding of the first `vs.length` arguments, these decode to themselves -
+    the decoded list starts with the original arguments that lie in front of the corruption -/
+theorem C18_corruption_keeps_prefix (be : Bool) (vs : List Val) (hw : ∀ v ∈ vs, v.wf = true) (q : Bytes) :
+    (argIter be (encode be vs ++ q)).take vs.length = vs.map Val.decoded := argIter_encode_append be vs hw q
+
 /-- the type-info constants the model uses are the ones the Rust sources define now -/
 theorem C18_consts : Gen.tiBool = 0x10 ∧ Gen.tiSint = 0x20 ∧ Gen.tiUint = 0x40 ∧ Gen.tiFloa = 0x80 ∧ Gen.tiStrg = 0x200 ∧
-    Gen.tiRawd = 0x400 ∧ Gen.tiVari = 0x800 ∧ Gen.tiFixp = 0x1000 ∧ Gen.scodUtf8 = 0x8000 := by decide
+    Gen.tiRawd = 0x400 ∧ Gen.tiVari = 0x800 ∧ Gen.tiFixp = 0x1000 ∧ Gen.scodUtf8 = 0x8000 ∧ Gen.tiAray = 0x100 ∧ Gen.tiTrai = 0x2000 ∧
+    Gen.tiStru = 0x4000 ∧ Gen.tiMaskTyle = 0xf := by decide
 
 /-- non-vacuity: the formerly broken case - an empty raw argument followed by a u8 -/
 example : argIter false (encode false [.raw [], .uint 1 [7]]) = [⟨0x400, []⟩, ⟨0x41, [7]⟩] := by decide
+
+/-- non-vacuity: the formerly broken cases - `[u8 7, u8 9]` with the array bit set in the first type info, and
+    `[bool true, u8 9]` with a reserved length code - end the list instead of yielding an argument of another type -/
+example : argIter false [0x41, 0x01, 0, 0, 7, 0x41, 0, 0, 0, 9] = [] ∧
+          argIter false [0x17, 0, 0, 0, 1, 0x41, 0, 0, 0, 9] = [] ∧
+          argIter false [0x10, 0, 0, 0, 1, 0x41, 0, 0, 0, 9] = [⟨0x10, [1]⟩, ⟨0x41, [9]⟩] := by decide
 
 end Props
